@@ -1,9 +1,9 @@
 SPECIFICATION Spec
 CONSTANTS
   Family = "expr"
-  MaxDepth = 2
+  MaxDepth = 3
   FullOps = "reps"
-  AllAtomsUpTo = 1
-  DefaultFrom = 99
-  OpsFrom = 99
+  AllAtomsUpTo = 0
+  DefaultFrom = 1
+  OpsFrom = 1
 INVARIANTS SpineOK FullOK Emit
